@@ -9,6 +9,7 @@ import (
 	"fmt"
 	"sort"
 	"strings"
+	"sync"
 	"testing"
 	"unicode"
 
@@ -205,6 +206,13 @@ func checkCodePoint(t ev.TB, r rune) (assigned bool) {
 			fail("decompose", "has canonical decomposition %U per NFD but Decompose reports none", []rune(d))
 		}
 	}
+	// Code points that are unassigned in the toolchain's (and x/text's) Unicode version have no
+	// decomposition there. When the library's own data is of the same version (no script is
+	// given to any such code point, see dataSkew) it must not decompose them either; this is
+	// also where an off-by-one of the algorithmic Hangul range shows (U+D7A4).
+	if sameUnicode && !dataSkew() && !assigned && ok && r >= 0 && r <= 0x10FFFF {
+		fail("decompose", "unassigned code point decomposes to (%s,%s)", u(a), u(b))
+	}
 	// --- mirroring
 	if m, ok := ucd.LookupMirrorChar(r); ok {
 		ev.Label("mirrored")
@@ -222,6 +230,30 @@ func checkCodePoint(t ev.TB, r rune) (assigned bool) {
 }
 
 var sameUnicode = unicode.Version == norm.Version
+
+var (
+	skewOnce sync.Once
+	skew     bool
+)
+
+// dataSkew reports whether the library's tables know code points the toolchain's Unicode version
+// does not (a script assigned to a code point without general category): then the library data
+// is newer than the reference data and clauses about unassigned code points are not decidable.
+func dataSkew() bool {
+	skewOnce.Do(func() {
+		n := 0
+		for r := rune(0); r <= 0x10FFFF; r++ {
+			if ucd.LookupType(r) == nil && language.LookupScript(r) != language.Unknown {
+				n++
+			}
+		}
+		skew = n > 16
+		if skew {
+			ev.Note("library script table covers %d code points unassigned in Unicode %s: clauses about unassigned code points skipped", n, unicode.Version)
+		}
+	})
+	return skew
+}
 
 // TestPropCodePoints enumerates every code point (sharded) through all lookup clauses.
 func TestPropCodePoints(t *testing.T) {
